@@ -478,6 +478,33 @@ fn main() {
         let (out, path, detail) = run_api(&case, 1);
         cases.push(&format!("api/big/{}/{}", path, out.split(':').next().unwrap_or("")), &model_line("s", &case), &out, &format!("dict-card-{} {}", k, detail));
     }
+    // 1c. thorough: bounded-exhaustive small shapes at unit level
+    if thorough {
+        // every null pattern of every length 1..=9, for an int / float / string column (one Mixed batch, then a second batch
+        // without the column so that trailing NULLs come from extend_to_largest)
+        for n in 1..=9usize {
+            for mask in 0u32..(1 << n) {
+                for ty in 0..3 {
+                    let cells: Vec<Cell> = (0..n).map(|i| if mask >> i & 1 == 1 { Cell::Null } else { match ty { 0 => Cell::Int(100 + i as i64), 1 => Cell::f(i as f64 * 0.5 - 1.0), _ => Cell::Str(format!("s{}", i % 3)) } }).collect();
+                    let case = Case { ncols: 2, items: vec![
+                        Item::Batch { len: n as u64, reps: vec![Some(ColRep::Mixed(cells)), Some(ColRep::I64((0..n as i64).collect()))] },
+                        Item::Batch { len: 2, reps: vec![None, Some(ColRep::I64(vec![1, 2]))] }], tags: vec![] };
+                    let (u, ucls) = run_unit(&case);
+                    cases.push(&format!("unit/exh-null/{}", ucls.join("|")), &model_line("u", &case), &u, &format!("n{} mask{:b} ty{}", n, mask, ty));
+                }
+            }
+        }
+        // every integer list of length 1..=3 over the edge values of the width ladder / i64 range
+        let edge = [0i64, 255, 256, -1, 65536, i64::MIN, i64::MAX - 1, 4294967296];
+        for n in 1..=3usize {
+            for code in 0..edge.len().pow(n as u32) {
+                let xs: Vec<i64> = (0..n).map(|k| edge[(code / edge.len().pow(k as u32)) % edge.len()]).collect();
+                let case = Case { ncols: 1, items: vec![Item::Batch { len: n as u64, reps: vec![Some(ColRep::I64(xs.clone()))] }], tags: vec![] };
+                let (u, ucls) = run_unit(&case);
+                cases.push(&format!("unit/exh-int/{}", ucls.join("|")), &model_line("u", &case), &u, &format!("{:?}", xs));
+            }
+        }
+    }
     // 2. random unit-level cases
     let n_unit = if thorough { 6000 } else { 700 };
     for _ in 0..n_unit {
